@@ -150,5 +150,4 @@ def run_shard(item, stats):
 
 
 def exhaustive_claim(tier, total):
-    return {"exhaustive": True,
-            "explanation": "exhaustive for the policy state machines listed under exhaustive_subdomains; the wiring histories are sampled"}
+    return {"exhaustive": False, "explanation": "the space of the property as a whole is not finite; exhaustive only for the policy state machines listed under exhaustive_subdomains; the wiring histories are sampled"}
